@@ -95,6 +95,18 @@ func newWat2cWorker(mWat *ast.Module, opt Options) *wat2cWorker {
 		}
 	}
 
+	// 模块级别的 (export "name" (func $f)) 和函数内联的 (export "name") 等价
+	for _, e := range p.m.Exports {
+		if e.Kind != token.FUNC {
+			continue
+		}
+		for _, fn := range p.m.Funcs {
+			if fn.Name == e.FuncIdx && fn.ExportName == "" {
+				fn.ExportName = e.Name
+			}
+		}
+	}
+
 	// 如果 start 字段为空, 则尝试用 _start 导出函数替代
 	if p.m.Start == "" {
 		for _, fn := range p.m.Funcs {
